@@ -723,13 +723,16 @@ func main() {
 		return
 	}
 	seed := vh.SeedFromEnv()
-	rep := vh.NewReport("C09", *tier, seed, "grammar-directed RDF/XML plans (typed / rdf:Description node elements; rdf:about, rdf:ID, rdf:nodeID, anonymous subjects; property attributes incl. rdf:type; literal, typed, empty, rdf:resource, rdf:nodeID, nested, parseType Resource / Collection / Literal property elements; rdf:li and rdf:_n; rdf:ID reification; xml:base and xml:lang on any element; relative references; at 3% a wide family: 9/10/11/99/100/101 rdf:li children mixed with explicit rdf:_n and a nested parseType=Resource counter, 50-300 property elements, 16-128 property attributes, character data / attribute values / IRIs around 256, 4096, 8192 and 65536 bytes, nesting to depth 50) x 2 random XML serialisations each (prefixes, default namespaces, shadowing, attribute order/quotes, entity and character references, CDATA, comments, PIs, white space) x text-offset capture off/on, plus random graphs of the fragment written by the Lean writer RX.writeAuto under random switch settings, plus the 169 W3C RDF/XML test documents; non-trivial = the plan / graph has at least one triple")
+	rep := vh.NewReport("C09", *tier, seed, "grammar-directed RDF/XML plans (typed / rdf:Description node elements; rdf:about, rdf:ID, rdf:nodeID, anonymous subjects; property attributes incl. rdf:type; literal, typed, empty, rdf:resource, rdf:nodeID, nested, parseType Resource / Collection / Literal property elements; rdf:li and rdf:_n; rdf:ID reification; xml:base and xml:lang on any element; relative references; default bases and xml:base values of boundary shape (authority with empty path, empty query, empty fragment) with empty-path references (empty, '#', '#f', '?', '?q', rdf:ID) under them, pairs inside a known class of property C12 redrawn; at 3% a wide family: 9/10/11/99/100/101 rdf:li children mixed with explicit rdf:_n and a nested parseType=Resource counter, 50-300 property elements, 16-128 property attributes, character data / attribute values / IRIs around 256, 4096, 8192 and 65536 bytes, nesting to depth 50) x 2 random XML serialisations each (prefixes, default namespaces, shadowing, attribute order/quotes, entity and character references, CDATA, comments, PIs, white space) x text-offset capture off/on, plus random graphs of the fragment written by the Lean writer RX.writeAuto under random switch settings, plus the 169 W3C RDF/XML test documents; non-trivial = the plan / graph has at least one triple")
 	fs, err := vh.LoadFindings(*findings)
 	if err != nil {
 		fmt.Fprintln(os.Stderr, "findings:", err)
 		os.Exit(2)
 	}
 	h := &harness{rep: rep, known: vh.KnownKeys(fs, "C09")}
+	for c := range vh.KnownKeys(fs, "C12") {
+		c12KnownClasses[c] = true // the planner stays outside the known deviation classes of reference resolution (c12classes.go)
+	}
 	d := vh.Driver{Path: *driver}
 	root := vh.NewRng(seed)
 
